@@ -32,9 +32,10 @@ sample-nodes-keep-time-zero
 Input space and bound
 ---------------------
 family A (exhaustive): single star, S samples, per-edge mutation counts in {0..m}^S except all-zero
-    quick   : S in {2,3,4}, m = 2  (8 + 26 + 80 = 114 inputs) x max_shape {1000, 2.5} x max_iterations {1, 3}
+    quick   : S in {2,..,5}, m = 2  (8 + 26 + 80 + 242 = 356 inputs) x max_shape {1000, 2.5} x max_iterations {1, 3}
     thorough: S in {2,..,6}, m = 3 (15 + 63 + 255 + 1023 + 4095 = 5451 inputs) x max_shape {1000, 2.5, 4} x
               max_iterations {1, 2, 25}
+    (every max_shape on every input; all iteration counts on every third input, the first count on the others)
 family B (generated, numpy default_rng(seed)): 1..3 trees, 2..6 samples, 1..3 star parents per tree chosen from a
     pool of 1..4 (a parent may reappear in other trees with other children; samples may be isolated in some
     trees), per-edge counts 0..12 (occasionally up to 200), optional mutations above star parents, sequence length
@@ -42,7 +43,7 @@ family B (generated, numpy default_rng(seed)): 1..3 trees, 2..6 samples, 1..3 st
     from {1000, exactly the largest conjugate shape, largest + 0.5, a value strictly inside the range of shapes
     (some nodes capped, others not), 1.5}; entry point alternates between tsdate.variational_gamma and
     tsdate.date(method="variational_gamma"); rescaling disabled through either of its two switches.
-    quick: 80 inputs; thorough: 5000 inputs.
+    quick: 300 inputs; thorough: 5000 inputs.
 family A is exhaustive for its stated bound; the module as a whole is not.
 
 Tolerances
@@ -230,10 +231,10 @@ def run(req, rep):
     import tsdate
 
     quick = tier != "thorough"
-    sizes, m = ((2, 3, 4), 2) if quick else ((2, 3, 4, 5, 6), 3)
+    sizes, m = ((2, 3, 4, 5), 2) if quick else ((2, 3, 4, 5, 6), 3)
     a_shapes = [1000, 2.5] if quick else [1000, 2.5, 4]
     a_iters = [1, 3] if quick else [1, 2, 25]
-    n_random = 80 if quick else 5000
+    n_random = 300 if quick else 5000
     rep.space = ("star-like inputs (every edge: non-sample parent over a time-zero sample) through the real "
                  "variational_gamma with regularise_roots=False and rescaling off; family A: all single stars with "
                  "per-edge mutation counts in {0..m}^S; family B: generated multi-tree forests of stars")
